@@ -397,3 +397,155 @@ def tree_str(t, depth=0):
     if k == "phi":
         return "phi(%s)" % " | ".join(tree_str(s, depth + 1) for s in t[1])
     return "?%s" % (t[1] if len(t) > 1 else "")
+
+
+def canon(t, body, depth=0):
+    """Canonical, line-free rendering of a tree for comparison with spec tables: paths are rendered with the
+    parameter NAME as root and only named fields (tuple indices, derefs and downcasts dropped); refs, derefs and
+    `from`/`into` conversions are kept as calls; phi alternatives are sorted."""
+    k = t[0]
+    if depth > 14:
+        return "…"
+    if k == "path":
+        r = t[1]
+        if r[0] == "arg":
+            root = body.local_name(r[1]) or ("arg%d" % r[1])
+        elif r[0] == "local":
+            root = body.local_name(r[1]) or ("_%d" % r[1])
+        else:
+            root = r[0]
+        f = [x for x in t[2] if x != "*" and not x.startswith("as ") and not x.startswith("[") and not x.isdigit()]
+        return ".".join([root] + f)
+    if k == "const":
+        return repr(t[1])
+    if k in ("constdef", "fnptr"):
+        return t[1].split("::")[-1]
+    if k == "call":
+        return "%s(%s)" % (t[2], ", ".join(canon(a, body, depth + 1) for a in t[3]))
+    if k == "bin":
+        return "%s(%s, %s)" % (t[1].lower(), canon(t[2], body, depth + 1), canon(t[3], body, depth + 1))
+    if k == "un":
+        return "%s(%s)" % (t[1].lower(), canon(t[2], body, depth + 1))
+    if k == "cast":
+        return "cast<%s>(%s)" % (t[3].split("::")[-1], canon(t[2], body, depth + 1))
+    if k == "agg":
+        name = t[1] if not t[1].startswith("closure:") else "closure"
+        if name in ("Option", "Result") or (len(t[3]) == 1 and t[3][0][0] == "0"):
+            inner = ", ".join(canon(s, body, depth + 1) for _, s in t[3])
+            return "%s(%s)" % (t[2] or name, inner)
+        return "%s%s{%s}" % (name, ("::" + t[2]) if t[2] and t[2] != name else "",
+                             ", ".join("%s: %s" % (f, canon(s, body, depth + 1)) for f, s in t[3]))
+    if k in ("ref", "deref", "promoted"):
+        return canon(t[1], body, depth + 1)
+    if k == "discr":
+        return "discr(%s)" % canon(t[1], body, depth + 1)
+    if k == "field":
+        if t[2].isdigit() or t[2].startswith("as "):
+            return canon(t[1], body, depth + 1)
+        return "%s.%s" % (canon(t[1], body, depth + 1), t[2])
+    if k == "phi":
+        return "phi(%s)" % " | ".join(sorted(set(canon(s, body, depth + 1) for s in t[1])))
+    return "?"
+
+
+# ---------------------------------------------------------------- linear forms
+from fractions import Fraction as _Fr
+
+_CONV = ("from", "into", "clone", "to_owned", "borrow", "deref", "from_fixed_nanos", "unwrap", "expect")
+
+
+def lin(t, body, depth=0):
+    """Linear form of an arithmetic tree: dict canonical-leaf -> Fraction coefficient. add/sub/neg and
+    multiplication/division by numeric constants are interpreted; unit-preserving conversions (`from`, `into`,
+    clone, Some(x)) are looked through; anything else is a leaf. Statement order, temporaries and
+    re-association are invisible."""
+    out = {}
+
+    def add(term, coef):
+        if coef == 0:
+            return
+        out[term] = out.get(term, _Fr(0)) + coef
+        if out[term] == 0:
+            del out[term]
+
+    def rec(t, coef, depth):
+        k = t[0]
+        if depth > 30:
+            add("…", coef)
+            return
+        if k in ("ref", "deref", "promoted"):
+            return rec(t[1], coef, depth + 1)
+        if k == "call":
+            name, args = t[2], t[3]
+            if name in ("add", "add_assign") and len(args) == 2:
+                rec(args[0], coef, depth + 1)
+                rec(args[1], coef, depth + 1)
+                return
+            if name in ("sub", "sub_assign") and len(args) == 2:
+                rec(args[0], coef, depth + 1)
+                rec(args[1], -coef, depth + 1)
+                return
+            if name == "neg" and len(args) == 1:
+                return rec(args[0], -coef, depth + 1)
+            if name in ("div", "mul") and len(args) == 2:
+                c = _num(args[1])
+                if c is not None and c != 0:
+                    return rec(args[0], coef / c if name == "div" else coef * c, depth + 1)
+                c = _num(args[0])
+                if name == "mul" and c is not None:
+                    return rec(args[1], coef * c, depth + 1)
+            if name in _CONV and len(args) == 1:
+                return rec(args[0], coef, depth + 1)
+        if k == "bin":
+            op = t[1]
+            if op in ("Add", "AddWithOverflow", "AddUnchecked"):
+                rec(t[2], coef, depth + 1)
+                rec(t[3], coef, depth + 1)
+                return
+            if op in ("Sub", "SubWithOverflow", "SubUnchecked"):
+                rec(t[2], coef, depth + 1)
+                rec(t[3], -coef, depth + 1)
+                return
+        if k == "un" and t[1] == "Neg":
+            return rec(t[2], -coef, depth + 1)
+        if k == "agg" and t[1] in ("Option",) and t[2] == "Some" and len(t[3]) == 1:
+            return rec(t[3][0][1], coef, depth + 1)
+        if k == "field" and (t[2].isdigit() or t[2].startswith("as ")):
+            return rec(t[1], coef, depth + 1)
+        if k == "const" and isinstance(t[1], (int, float)) and not isinstance(t[1], bool):
+            add("1", coef * _Fr(t[1]).limit_denominator(10 ** 12))
+            return
+        add(canon(t, body), coef)
+
+    rec(t, _Fr(1), depth)
+    return out
+
+
+def _num(t):
+    t = strip(t)
+    if t[0] == "const" and isinstance(t[1], (int, float)) and not isinstance(t[1], bool):
+        return _Fr(t[1]).limit_denominator(10 ** 12)
+    if t[0] == "cast":
+        return _num(t[2])
+    return None
+
+
+def lin_str(d):
+    items = sorted(d.items())
+    return " ".join("%s%s*%s" % ("+" if c > 0 else "-", abs(c), k) if abs(c) != 1 else "%s%s" % ("+" if c > 0 else "-", k)
+                    for k, c in items) or "0"
+
+
+def parse_lin(s):
+    """'+a -b +1/2*c' -> dict"""
+    out = {}
+    for tok in s.split():
+        sign = -1 if tok[0] == "-" else 1
+        body = tok[1:] if tok[0] in "+-" else tok
+        if "*" in body:
+            c, name = body.split("*", 1)
+            c = _Fr(c)
+        else:
+            c, name = _Fr(1), body
+        out[name] = out.get(name, _Fr(0)) + sign * c
+    return out
